@@ -2,10 +2,14 @@
 //!
 //! Case lines (see /verif/lean/YashModel/Arith/Main.lean):
 //!   `E <env> <text> [<tree>]`  env = `-` or `name:value,…` (hex), text hex, tree in Polish notation
-//!   `U <text>`                 totality only (text with non-ASCII alphanumerics: outside the model)
+//!   `P …`                      the same with `Config { portable: true }`
+//!   `W <extra> <env> <text>`   a text with non-ASCII alphanumerics (`V …` = portable): `extra` = those characters
+//!                              (hex), the parameter of the model's Unicode tokenizer; full observation
+//!   `U <text>`                 legacy (replays of earlier rounds): totality only
 //!   `S <opts> <globals> <kind> <locals> <exprs>`  shell-level scenario: arithmetic expansions run by the
 //!                              whole shell at top level / in functions (with `typeset` locals) / in subshells
-//! Observation: `ok <value> <sorted final env>` | `error` | `PANIC(..)`; for `U`: `total` | `PANIC(..)`;
+//! Observation: `ok <value> <sorted final env>` | `error <cause>` (the leaf variant of `Error::cause`, see
+//! `cause_label`) | `PANIC(..)`; for `U`: `total` | `PANIC(..)`;
 //! for `S`: the output lines joined by `|`, then `END <final global variables>` or `ERR` (shell exited).
 //! Oracle (independent of the Lean model): for a case with a tree, the tree is evaluated here in exact
 //! `i128` arithmetic by the C rules (error when a result does not fit i64 or is undefined) and compared
@@ -207,7 +211,15 @@ fn join(toks: &[String], style: u8, r: &mut Rng) -> String {
         if i > 0 {
             let a = s.chars().last().unwrap();
             let b = t.chars().next().unwrap();
-            let glue = (PUNCT.contains(a) && PUNCT.contains(b))
+            // two words run together; two punctuators run together only if some C punctuator longer than the
+            // first one is a prefix of their concatenation (`a<-b`, `x=-1`, `a*-b`, `1?-2:+3` need no blank,
+            // `a- -b`, `a+ ++b`, `x= =1`, `a< <b`, `a& &b` do).  Every 4th join keeps the cautious rule
+            // (a blank between any two punctuation characters).
+            let prev = &toks[i - 1];
+            let joined = format!("{prev}{t}");
+            let runs_together = all_lexemes().iter().any(|l| l.len() > prev.len() && l.starts_with(prev.as_str()) && joined.starts_with(l));
+            let cautious = (s.len() + i) % 4 == 0;
+            let glue = (PUNCT.contains(a) && PUNCT.contains(b) && (cautious || runs_together || !all_lexemes().contains(&prev.as_str())))
                 || ((a.is_alphanumeric() || a == '_') && (b.is_alphanumeric() || b == '_'));
             match style {
                 0 => {
@@ -500,9 +512,43 @@ fn run_impl_cfg(text: &str, env: &Env, portable: bool) -> String {
         config.portable = portable;
         match yash_arith::eval_with_config(text, &mut m, config) {
             Ok(v) => format!("ok {} {}", v, show_env(m.iter())),
-            Err(_) => "error".into(),
+            Err(e) => format!("error {}", cause_label(&e.cause)),
         }
     })
+}
+
+/// the leaf variant of `Error::cause` (the class of the error, never its message or location)
+fn cause_label<E1, E2>(c: &yash_arith::ErrorCause<E1, E2>) -> &'static str {
+    use yash_arith::{ErrorCause as C, EvalError as V, PortabilityError as P, SyntaxError as S, TokenError as T};
+    match c {
+        C::SyntaxError(S::TokenError(T::InvalidNumericConstant)) => "numconst",
+        C::SyntaxError(S::TokenError(T::InvalidCharacter)) => "badchar",
+        C::SyntaxError(S::TokenError(_)) => "OTHER-TOKEN",
+        C::SyntaxError(S::IncompleteExpression) => "incomplete",
+        C::SyntaxError(S::MissingOperator) => "missingop",
+        C::SyntaxError(S::UnclosedParenthesis { .. }) => "paren",
+        C::SyntaxError(S::QuestionWithoutColon { .. }) => "question",
+        C::SyntaxError(S::ColonWithoutQuestion) => "colon",
+        C::SyntaxError(S::InvalidOperator) => "invalidop",
+        C::SyntaxError(_) => "OTHER-SYNTAX",
+        C::PortabilityError(P::IncrementDecrement) => "portable",
+        C::PortabilityError(_) => "OTHER-PORTABILITY",
+        C::EvalError(V::InvalidVariableValue(_)) => "value",
+        C::EvalError(V::Overflow) => "overflow",
+        C::EvalError(V::DivisionByZero) => "divzero",
+        C::EvalError(V::LeftShiftingNegative) => "lshiftneg",
+        C::EvalError(V::ReverseShifting) => "revshift",
+        C::EvalError(V::AssignmentToValue) => "assignvalue",
+        C::EvalError(V::GetVariableError(_)) => "getvar",
+        C::EvalError(V::AssignVariableError(_)) => "assignvar",
+        C::EvalError(_) => "OTHER-EVAL",
+        _ => "OTHER",
+    }
+}
+
+/// `error <cause>` -> `error` (the oracles below know that an evaluation fails, not always why)
+fn class_of(obs: &str) -> &str {
+    if obs.starts_with("error ") { "error" } else { obs }
 }
 
 fn is_name(s: &str) -> bool {
@@ -562,7 +608,7 @@ fn run_shell(text: &str, env: &Env) -> Option<String> {
 
 /// what `run_shell` should print, derived from the observation of the direct call
 fn shell_expectation(obs: &str, env: &Env) -> Option<String> {
-    if obs == "error" {
+    if class_of(obs) == "error" {
         return Some("error".into());
     }
     let mut it = obs.split(' ');
@@ -586,7 +632,15 @@ struct Case {
     text: String,
     env: Env,
     tree: Option<Ex>,
+    /// legacy `U` line (replays of earlier rounds): compared for totality only
     unicode_only: bool,
+}
+
+/// the non-ASCII characters of the text that `char::is_alphanumeric` accepts (sorted, each once): the
+/// parameter of the model's tokenizer (`nextTokenU extra`), which cannot compute that std table itself
+fn extra_alnum(text: &str) -> String {
+    let set: BTreeSet<char> = text.chars().filter(|c| !c.is_ascii() && c.is_alphanumeric()).collect();
+    set.into_iter().collect()
 }
 
 fn enc_env(env: &Env) -> String {
@@ -594,9 +648,10 @@ fn enc_env(env: &Env) -> String {
 }
 
 fn make_case(text: String, env: &Env, tree: Option<&Ex>) -> Case {
-    let unicode_only = text.chars().any(|c| !c.is_ascii() && c.is_alphanumeric());
-    let line = if unicode_only {
-        format!("U {}", enc_str(&text))
+    let extra = extra_alnum(&text);
+    let line = if !extra.is_empty() {
+        // text with non-ASCII alphanumerics: full observation; the Spec (ASCII C lexer) is silent
+        format!("W {} {} {}", enc_str(&extra), enc_env(env), enc_str(&text))
     } else {
         let mut l = format!("E {} {}", enc_env(env), enc_str(&text));
         if let Some(t) = tree {
@@ -607,14 +662,14 @@ fn make_case(text: String, env: &Env, tree: Option<&Ex>) -> Case {
         }
         l
     };
-    Case { portable: false, line, text, env: env.clone(), tree: tree.cloned(), unicode_only }
+    Case { portable: false, line, text, env: env.clone(), tree: tree.cloned(), unicode_only: false }
 }
 
 /// the same case evaluated with the `portable` configuration
 fn make_portable(mut c: Case) -> Case {
     if !c.unicode_only {
         c.portable = true;
-        c.line = format!("P{}", &c.line[1..]);
+        c.line = format!("{}{}", if c.line.starts_with('W') { "V" } else { "P" }, &c.line[1..]);
     }
     c
 }
@@ -640,6 +695,20 @@ fn parse_case(line: &str) -> Option<Case> {
             let mut r = Rng::new(tree.len() as u64);
             let text = render(&t, 0, (line.len() % 2) as u8, &mut r);
             Some(Case { portable: false, line: line.to_string(), text, env, tree: Some(t), unicode_only: false })
+        }
+        [k @ ("W" | "V"), x, e, t] => {
+            let mut env = Env::new();
+            if *e != "-" {
+                for item in e.split(',') {
+                    let (n, x) = item.split_once(':')?;
+                    env.insert(dec_str(n)?, dec_str(x)?);
+                }
+            }
+            let text = dec_str(t)?;
+            if dec_str(x)? != extra_alnum(&text) {
+                return None;
+            }
+            Some(Case { portable: *k == "V", line: line.to_string(), text, env, tree: None, unicode_only: false })
         }
         [k @ ("E" | "P"), e, t, tree @ ..] => {
             let mut env = Env::new();
@@ -684,7 +753,7 @@ fn run_case(c: &Case, with_shell: bool) -> (String, String) {
         // the portable configuration rejects `++`/`--` wherever they stand and changes nothing else
         let oracle = match &c.tree {
             Some(t) if has_incdec(t) => {
-                if obs == "error" { "ok".to_string() } else { "FAIL:portable-accepted-incdec".to_string() }
+                if obs == "error portable" { "ok".to_string() } else { "FAIL:portable-accepted-incdec".to_string() }
             }
             Some(_) => {
                 let plain = run_impl(&c.text, &c.env);
@@ -708,7 +777,13 @@ fn run_case(c: &Case, with_shell: bool) -> (String, String) {
                 Some(v) => format!("ok {} {}", v, show_env(env.iter())),
                 None => "error".into(),
             };
-            oracle = if want == obs { "ok".into() } else { format!("FAIL:exact-C-value-is[{want}]") };
+            // an in-scope tree without a C value fails in its evaluation (it parses, and not for portability)
+            let agrees = if want == "error" {
+                matches!(obs.strip_prefix("error "), Some("value" | "overflow" | "divzero" | "lshiftneg" | "revshift" | "assignvalue"))
+            } else {
+                want == obs
+            };
+            oracle = if agrees { "ok".into() } else { format!("FAIL:exact-C-value-is[{want}]") };
         }
     }
     // a variable whose value is an integer constant denotes that constant
@@ -1703,6 +1778,52 @@ fn main() {
             .collect();
         out.put(make_case(text, &env0, None));
     }
+    // 6a. expressions over non-ASCII identifiers (`W`/`V` lines: full observation, the set of non-ASCII
+    //     alphanumerics of the text travels with the case): every form that reads or writes a variable,
+    //     digit-initial and digit-only words, a non-alphanumeric symbol behind a name, Unicode blanks
+    let wide_names = ["\u{e9}", "\u{5909}\u{6570}", "x\u{663}", "\u{663}", "\u{2177}", "a\u{b2}", "_\u{e9}", "\u{e9}1", "\u{3a9}_2", "\u{ff11}"];
+    let wide_values = ["5", "010", "-0x10", "junk", "", "\u{663}", "9223372036854775807", "0"];
+    let nw = if thorough { 40 } else { 2 };
+    for (i, n) in wide_names.iter().enumerate() {
+        let other = wide_names[(i + 3) % wide_names.len()];
+        let v = || Ex::Var(n.to_string());
+        let forms: Vec<Ex> = vec![
+            v(),
+            Bin("=", b(v()), b(Num(5, 0))),
+            Bin("+=", b(v()), b(Num(2, 0))),
+            Bin("<<=", b(v()), b(Num(1, 0))),
+            Post("++", b(v())),
+            Pre("--", b(v())),
+            Cond(b(v()), b(v()), b(Num(1, 0))),
+            Bin("/", b(Num(7, 0)), b(v())),
+            Bin("<<", b(Num(1, 0)), b(v())),
+            Bin("*", b(v()), b(Ex::Var(other.to_string()))),
+            Bin("||", b(v()), b(Bin("=", b(Ex::Var(other.to_string())), b(Num(3, 0))))),
+            Pre("-", b(v())),
+        ];
+        for (k, t) in forms.iter().enumerate() {
+            for rep in 0..nw {
+                let mut env = Env::new();
+                if (k + rep) % 3 != 0 {
+                    env.insert(n.to_string(), r.pick(&wide_values).to_string());
+                }
+                if r.chance(1, 3) {
+                    env.insert(other.to_string(), r.pick(&wide_values).to_string());
+                }
+                let style = r.below(3) as u8;
+                let text = render(t, if rep % 2 == 1 { 30 } else { 0 }, style, &mut r);
+                let c = make_case(text, &env, Some(t));
+                out.put(if (k + rep) % 4 == 3 { make_portable(c) } else { c });
+            }
+        }
+        for text in [format!("1{n}"), format!("0x{n}"), format!("{n}\u{20ac}"), format!("{n}\u{3000}+ 1"), format!("{n} {n}"), format!("({n}"), format!("{n}=\u{a0}{other}=4"), format!("{n}\u{2028}?2:"), format!("08+{n}")] {
+            let mut env = Env::new();
+            env.insert(n.to_string(), "7".to_string());
+            out.put(make_case(text.clone(), &env, None));
+            out.put(make_portable(make_case(text, &Env::new(), None)));
+        }
+    }
+
     // 6b. size family: a huge sub-tree as RIGHT operand / branch / assigned value, with node counts around
     //     the powers of two a narrowed length field would wrap at (2^8, 2^16) and one far above 2^16.
     //     `s<n>` has 2n-1 nodes, `p- s<n>` 2n.
